@@ -86,11 +86,13 @@ def _custom_reduction(values, axis=None):
 REDUCTIONS = {"mean": np.mean, "median": np.median, "midrange": _custom_reduction, "average": np.average}
 
 
-def gen_scalar_spec(tape, tag="E", depth=0, allow_nan_models=False):
-    """Spec of an estimator for one data component."""
+def gen_scalar_spec(tape, tag="E", depth=0, allow_nan_models=False, has_w=None):
+    """Spec of an estimator for one data component (has_w: whether the data carry weights, if known)."""
     choices = [("trend", 4), ("spline", 4), ("knn", 3)]
     if depth == 0:
         choices.append(("chain", 3))
+        if has_w is not None:
+            choices.append(("chain_reduce", 2))
     if allow_nan_models:
         choices.append(("linear", 1))
     kind = tape.weighted(choices, f"{tag}.kind")
@@ -102,13 +104,20 @@ def gen_scalar_spec(tape, tag="E", depth=0, allow_nan_models=False):
         return ["knn", tape.randint(1, 5, f"{tag}.k"), tape.pick(["mean", "median", "midrange"], f"{tag}.red")]
     if kind == "linear":
         return ["linear"]
+    if kind == "chain_reduce":
+        # decimate in blocks first, then fit (BlockReduce needs a weights-aware reduction when weights flow in)
+        if tape.draw(2, f"{tag}.blockmean"):
+            first = ["blockmean", tape.pick([25.0, 20.0], f"{tag}.spacing"), bool(has_w and tape.draw(2, f"{tag}.unc"))]
+        else:
+            first = ["blockreduce", "average" if has_w else tape.pick(["mean", "median"], f"{tag}.red"), tape.pick([25.0, 20.0], f"{tag}.spacing")]
+        return ["chain", [first, gen_scalar_spec(tape, f"{tag}.s1", depth + 1)]]
     steps = [gen_scalar_spec(tape, f"{tag}.s{i}", depth + 1) for i in range(tape.randint(2, 3, f"{tag}.nsteps"))]
     return ["chain", steps]
 
 
-def gen_spec(tape, ncomp, tag="E", allow_nan_models=False):
+def gen_spec(tape, ncomp, tag="E", allow_nan_models=False, has_w=None):
     if ncomp == 1:
-        return gen_scalar_spec(tape, tag, allow_nan_models=allow_nan_models)
+        return gen_scalar_spec(tape, tag, allow_nan_models=allow_nan_models, has_w=has_w)
     if ncomp == 2:
         kind = tape.weighted([("vector", 3), ("vspline", 2), ("chainvec", 1)], f"{tag}.vkind")
         if kind == "vspline":
